@@ -71,10 +71,11 @@ class Add(Logic):
         else:
             s = f'Add{self.a.getWidth()}_{self.b.getWidth()}_{self.r.getWidth()}'
             
+        # a carry wire wider than one bit is part of the interface of the module
         if not(self.ci is None):
-            s += '_ci'
+            s += '_ci' if (self.ci.getWidth() == 1) else f'_ci{self.ci.getWidth()}'
         if not(self.co is None):
-            s += '_co'
+            s += '_co' if (self.co.getWidth() == 1) else f'_co{self.co.getWidth()}'
         return s
         
 class SignedAdd(Logic):
